@@ -14,7 +14,8 @@
 //! new_to_old):
 //!   T0            an opening-balance transaction whose account posting asserts "= O"
 //!   per entry     one transaction (no TxDtls) or one per TxDtls (batched entry), in chronological/detail
-//!                 order, account posting = +amount (CRDT) / -amount (DBIT),
+//!                 order, account posting = +amount (CRDT) / -amount (DBIT) by the entry's indicator, resp.
+//!                 by each detail's OWN indicator (a batch may contain a detail of the opposite side),
 //!                 date = value date if given else booking date,
 //!                 effective date = booking date iff a value date is given and differs, else none
 //!   last          its account posting asserts "= C"
@@ -36,7 +37,7 @@ pub const DEF: CheckDef = CheckDef {
     id: "C18",
     run,
     technique: "bounded-exhaustive enumeration of consistent camt.053 statements rendered as XML by the generator; the real importer (library entry point and ImportCmd on real files) is compared with a reference import written from the statement, and funding + printed output is fed back through the real report::process (acceptance and exact final balance)",
-    rule: "case = one statement = (opening balance {0, 100.00, -50.25}, row_order {old_to_new, new_to_old}, sequence of entries). Entry alphabet E (540) = side{CRDT,DBIT} x amount{0.05, 10.10, 1000} x dates{value=booking, booking=value+1, booking=value-1, value date absent, value date absent and booking date as DtTm with offset} x 18 detail/charge shapes (0/1/2 TxDtls summing to the entry; NtryDtls absent / Btch only; AmtDtls present/absent; charge: none, zero record, included at entry level, at detail level, at both, on the second detail only, not included). Families, each a complete product x 3 openings x 2 row orders: F0 no entry (6); F1 one entry over E (3 240); quick: F2 two entries over E2 = 96 (side x amount x {value=booking, booking=value+1} x 8 shapes) (55 296), F2d two entries over 20 = side x 10.10 x 5 dates x {k0,k2} (2 400), F3 three entries over 12 = side x amount x {k0, k2-det-incl} (10 368); thorough: F2 two entries over E (1 749 600), F3 three entries over 72 = side x amount x 2 dates x 6 shapes (2 239 488), F4 four entries over 12 (124 416). states = statements executed, transitions = ledger transactions compared with the reference (both observations), validated = MUST statements",
+    rule: "case = one statement = (opening balance {0, 100.00, -50.25}, row_order {old_to_new, new_to_old}, sequence of entries). Entry alphabet E (750) = side{CRDT,DBIT} x amount{0.05, 10.10, 1000} x dates{value=booking, booking=value+1, booking=value-1, value date absent, value date absent and booking date as DtTm with offset} x 25 detail/charge shapes (0/1/2/3 TxDtls whose signed amounts sum to the entry, incl. batches of 2 and 3 where one detail (first or last) has the OPPOSITE CdtDbtInd, with and without AmtDtls and with an included charge on the opposite detail; NtryDtls absent / Btch only; AmtDtls present/absent; charge: none, zero record, included at entry level, at detail level, at both, on the second detail only, not included). Families, each a complete product x 3 openings x 2 row orders: F0 no entry (6); F1 one entry over E (4 500); quick: F2 two entries over E2 = 108 (side x amount x {value=booking, booking=value+1} x 9 shapes incl. a mixed-indicator batch of 3) (69 984), F2d two entries over 20 = side x 10.10 x 5 dates x {k0,k2} (2 400), F3 three entries over 12 = side x amount x {k0, k2-det-incl} (10 368); thorough: F2 two entries over E (3 375 000), F3 three entries over 72 = side x amount x 2 dates x 6 shapes (2 239 488), F4 four entries over 12 (124 416). states = statements executed, transitions = ledger transactions compared with the reference (both observations), validated = MUST statements",
     assumptions: &[
         "the generator's XML skeleton follows okane's own sample file (cli/tests/testdata/import/iso_camt.xml); elements okane does not model (GrpHdr, Acct, TxsSummry, RvslInd, Sts, Btch totals, RltdPties) are constant",
         "included charge: the entry/detail amount is the account movement; AmtDtls/TxAmt (when rendered) is the amount net of the included charges (debit: Amt - charges, credit: Amt + charges) as in the sample file; an entry-level charge on a two-detail batch is attributed to the first detail's TxAmt",
@@ -90,6 +91,8 @@ struct Shape {
     name: &'static str,
     /// number of TxDtls
     k: usize,
+    /// index of the one TxDtls whose CdtDbtInd is OPPOSITE to the entry's (signed details still sum to the entry)
+    opp: Option<usize>,
     /// NtryDtls/Btch rendered (always when k > 0)
     btch: bool,
     entry_chg: Chg,
@@ -99,10 +102,15 @@ struct Shape {
 }
 
 const fn sh(name: &'static str, k: usize, btch: bool, entry_chg: Chg, d0: Chg, d1: Chg, amt_dtls: bool) -> Shape {
-    Shape { name, k, btch, entry_chg, det_chg: [d0, d1], amt_dtls }
+    Shape { name, k, opp: None, btch, entry_chg, det_chg: [d0, d1], amt_dtls }
 }
 
-const SHAPES: [Shape; 18] = [
+/// batch with one detail of the opposite indicator
+const fn shm(name: &'static str, k: usize, opp: Option<usize>, d1: Chg, amt_dtls: bool) -> Shape {
+    Shape { name, k, opp, btch: true, entry_chg: Chg::None, det_chg: [Chg::None, d1], amt_dtls }
+}
+
+const SHAPES: [Shape; 25] = [
     sh("k0", 0, false, Chg::None, Chg::None, Chg::None, false),
     sh("k0-btch", 0, true, Chg::None, Chg::None, Chg::None, false),
     sh("k1", 1, true, Chg::None, Chg::None, Chg::None, false),
@@ -121,9 +129,20 @@ const SHAPES: [Shape; 18] = [
     sh("k1-det-notincl", 1, true, Chg::None, Chg::NotIncl, Chg::None, true),
     sh("k2-det-notincl", 2, true, Chg::None, Chg::NotIncl, Chg::None, true),
     sh("k2-entry-incl", 2, true, Chg::Incl, Chg::None, Chg::None, true),
+    // mixed batches: e.g. DBIT 0.05 = DBIT 0.07 + CRDT 0.02, DBIT 0.05 = DBIT 0.03 + DBIT 0.04 + CRDT 0.02
+    shm("k3", 3, None, Chg::None, false),
+    shm("k2-mixed", 2, Some(1), Chg::None, false),
+    shm("k2-mixed-first", 2, Some(0), Chg::None, false),
+    shm("k2-mixed-amtdtls", 2, Some(1), Chg::None, true),
+    shm("k2-mixed-det2-incl", 2, Some(1), Chg::Incl, true),
+    shm("k3-mixed", 3, Some(2), Chg::None, false),
+    shm("k3-mixed-amtdtls", 3, Some(2), Chg::None, true),
 ];
 
 impl Shape {
+    fn chg(&self, j: usize) -> Chg {
+        self.det_chg.get(j).copied().unwrap_or(Chg::None)
+    }
     fn has_not_included(&self) -> bool {
         self.entry_chg == Chg::NotIncl || self.det_chg.contains(&Chg::NotIncl)
     }
@@ -158,12 +177,23 @@ impl EntrySpec {
             Side::Debit => -cents,
         }
     }
-    /// amounts of the details (k = 0: none)
-    fn detail_amounts(&self) -> Vec<i64> {
-        match self.shape().k {
-            0 => vec![],
-            1 => vec![AMOUNTS[self.amt]],
-            _ => vec![FIRST_PART[self.amt], AMOUNTS[self.amt] - FIRST_PART[self.amt]],
+    /// (amount, own side) of the details (k = 0: none); signed by their own side they sum to the signed entry
+    fn details(&self) -> Vec<(i64, Side)> {
+        let s = self.shape();
+        let a = AMOUNTS[self.amt];
+        let f = FIRST_PART[self.amt];
+        let x = a - f;
+        let own = self.side;
+        let other = if own == Side::Credit { Side::Debit } else { Side::Credit };
+        match (s.k, s.opp) {
+            (0, _) => vec![],
+            (1, None) => vec![(a, own)],
+            (2, None) => vec![(f, own), (x, own)],
+            (2, Some(1)) => vec![(a + x, own), (x, other)],
+            (2, Some(0)) => vec![(x, other), (a + x, own)],
+            (3, None) => vec![(f, own), (x / 2, own), (x - x / 2, own)],
+            (3, Some(2)) => vec![(f, own), (2 * x, own), (x, other)],
+            _ => panic!("harness bug: unsupported detail layout"),
         }
     }
     fn name(&self) -> String {
@@ -278,15 +308,16 @@ fn render_entry(out: &mut String, stmt: &Stmt, i: usize) {
     if s.btch || s.k > 0 {
         out.push_str("        <NtryDtls>\n");
         out.push_str(&format!("          <Btch>\n            <NbOfTxs>{}</NbOfTxs>\n            <TtlAmt Ccy=\"{}\">{}</TtlAmt>\n            <CdtDbtInd>{}</CdtDbtInd>\n          </Btch>\n", s.k.max(1), CCY, cents(a), cd));
-        for (j, da) in e.detail_amounts().iter().enumerate() {
+        for (j, (da, dside)) in e.details().iter().enumerate() {
+            let dcd = if *dside == Side::Credit { "CRDT" } else { "DBIT" };
             out.push_str("          <TxDtls>\n");
             out.push_str(&format!("            <Refs>\n              <AcctSvcrRef>REF/{}/{}</AcctSvcrRef>\n              <EndToEndId>NOTPROVIDED</EndToEndId>\n            </Refs>\n", i + 1, j + 1));
-            out.push_str(&format!("            <Amt Ccy=\"{}\">{}</Amt>\n            <CdtDbtInd>{}</CdtDbtInd>\n", CCY, cents(*da), cd));
+            out.push_str(&format!("            <Amt Ccy=\"{}\">{}</Amt>\n            <CdtDbtInd>{}</CdtDbtInd>\n", CCY, cents(*da), dcd));
             if s.amt_dtls {
                 // charges carried by this detail
                 let mut incl = 0;
                 let mut not_incl = 0;
-                match s.det_chg[j] {
+                match s.chg(j) {
                     Chg::Incl => incl += DETAIL_CHARGE,
                     Chg::NotIncl => not_incl += DETAIL_CHARGE,
                     _ => {}
@@ -300,12 +331,12 @@ fn render_entry(out: &mut String, stmt: &Stmt, i: usize) {
                 }
                 // net amount of the underlying transaction: debit: the account paid amount = net + charge;
                 // credit: the account received amount = net - charge
-                let tx_amt = if e.side == Side::Debit { da - incl } else { da + incl };
-                let instd = if e.side == Side::Debit { tx_amt - not_incl } else { tx_amt + not_incl };
+                let tx_amt = if *dside == Side::Debit { da - incl } else { da + incl };
+                let instd = if *dside == Side::Debit { tx_amt - not_incl } else { tx_amt + not_incl };
                 out.push_str(&format!("            <AmtDtls>\n              <InstdAmt>\n                <Amt Ccy=\"{c}\">{i}</Amt>\n              </InstdAmt>\n              <TxAmt>\n                <Amt Ccy=\"{c}\">{t}</Amt>\n              </TxAmt>\n            </AmtDtls>\n", c = CCY, i = cents(instd), t = cents(tx_amt)));
             }
-            render_charges(out, "            ", s.det_chg[j], DETAIL_CHARGE);
-            let (me, other) = if e.side == Side::Credit { ("Cdtr", "Dbtr") } else { ("Dbtr", "Cdtr") };
+            render_charges(out, "            ", s.chg(j), DETAIL_CHARGE);
+            let (me, other) = if *dside == Side::Credit { ("Cdtr", "Dbtr") } else { ("Dbtr", "Cdtr") };
             out.push_str(&format!("            <RltdPties>\n              <{o}>\n                <Nm>Party {i}.{j}</Nm>\n              </{o}>\n              <{m}>\n                <Nm>Taro Yamada</Nm>\n              </{m}>\n            </RltdPties>\n", o = other, m = me, i = i + 1, j = j + 1));
             out.push_str(&format!("            <AddtlTxInf>detail {}.{}</AddtlTxInf>\n          </TxDtls>\n", i + 1, j + 1));
         }
@@ -377,12 +408,13 @@ fn expected(stmt: &Stmt) -> Vec<ExpTxn> {
             Some(vd) if vd != book => Some(book),
             _ => None,
         };
-        let ds = e.detail_amounts();
+        let ds = e.details();
         if ds.is_empty() {
             v.push(ExpTxn { date, eff, amt: e.signed(AMOUNTS[e.amt]) });
         } else {
-            for d in ds {
-                v.push(ExpTxn { date, eff, amt: e.signed(d) });
+            // each detail by its OWN credit/debit indicator
+            for (d, side) in ds {
+                v.push(ExpTxn { date, eff, amt: if side == Side::Credit { d } else { -d } });
             }
         }
     }
@@ -669,11 +701,12 @@ fn judge(sc: &Scratch, stmt: &Stmt, xml: &str, txns_compared: &mut u64) -> Outco
     }
     // class: what the statement exercised
     let n = stmt.entries.len();
-    let batch = stmt.entries.iter().any(|e| e.shape().k == 2);
+    let batch = stmt.entries.iter().any(|e| e.shape().k >= 2);
+    let mixed = stmt.entries.iter().any(|e| e.shape().opp.is_some());
     let chg = stmt.entries.iter().any(|e| e.shape().has_included());
     let eff = exp.iter().any(|e| e.eff.is_some());
     let noval = stmt.entries.iter().any(|e| matches!(e.dates, Dates::ValueAbsent | Dates::BookDtTmOnly));
-    Outcome::pass(format!("n{}/{}/{}{}{}{}", n, if stmt.new_to_old { "n2o" } else { "o2n" }, if batch { "B" } else { "-" }, if chg { "C" } else { "-" }, if eff { "E" } else { "-" }, if noval { "V" } else { "-" }))
+    Outcome::pass(format!("n{}/{}{}{}{}", n, if mixed { "M" } else if batch { "B" } else { "-" }, if chg { "C" } else { "-" }, if eff { "E" } else { "-" }, if noval { "V" } else { "-" }))
 }
 
 // ------------------------------------------------------------------------------------------
@@ -710,10 +743,10 @@ fn families(thorough: bool) -> Vec<Family> {
     let all_dates = [Dates::Same, Dates::BookLater, Dates::BookEarlier, Dates::ValueAbsent, Dates::BookDtTmOnly];
     let all_shapes: Vec<usize> = (0..SHAPES.len()).collect();
     let idx = |names: &[&str]| -> Vec<usize> { names.iter().map(|n| shape_idx(n)).collect() };
-    // E: 2 x 3 x 5 x 18 = 540
+    // E: 2 x 3 x 5 x 25 = 750
     let full = alphabet(&both, &all_amts, &all_dates, &all_shapes);
-    // E2: 2 x 3 x 2 x 8 = 96
-    let e2 = alphabet(&both, &all_amts, &[Dates::Same, Dates::BookLater], &idx(&["k0", "k1", "k2", "k1-entry-incl", "k2-det-incl", "k0-entry-incl", "k2-entry-incl", "k1-det-notincl"]));
+    // E2: 2 x 3 x 2 x 9 = 108
+    let e2 = alphabet(&both, &all_amts, &[Dates::Same, Dates::BookLater], &idx(&["k0", "k1", "k2", "k1-entry-incl", "k2-det-incl", "k0-entry-incl", "k2-entry-incl", "k1-det-notincl", "k3-mixed"]));
     // Ed: 2 x 1 x 5 x 2 = 20 (all date combinations of two entries)
     let ed = alphabet(&both, &[1], &all_dates, &idx(&["k0", "k2"]));
     // E3: 2 x 3 x 1 x 2 = 12
@@ -768,6 +801,8 @@ fn run(ctx: &mut Ctx) {
             ctx.count("transitions", compared);
             ctx.count("states", 1);
             ctx.count("entries", stmt.entries.len() as u64);
+            ctx.count("statements_new_to_old", stmt.new_to_old as u64);
+            ctx.count("details_with_opposite_indicator", stmt.entries.iter().filter(|e| e.shape().opp.is_some()).count() as u64);
             ctx.count("details", stmt.entries.iter().map(|e| e.shape().k as u64).sum());
         }
     }
